@@ -22,6 +22,12 @@
 
 rcase_t g_case;
 
+// brackets around library calls that contain a site listed (open) in known_findings.json: 8-byte reads of freed memory
+// inside them are recorded and judged by the front end against that file, so that the search goes on behind the finding
+int rt_tolerate_known_reads = 1;
+void rt_known_read_site(int enter) {
+  if (rt_tolerate_known_reads) vs_tolerate_freed_read8(enter);
+}
 long cfg_get(const char* key, long dflt) {
   for (int i = 0; i < g_case.n_cfg; i++)
     if (!strcmp(g_case.cfg_key[i], key)) return g_case.cfg_val[i];
@@ -44,8 +50,9 @@ typedef struct grec {
   int early_wake_seen;
 } grec_t;
 
-#define GTAB 2048
+#define GTAB (1 << 18)
 static grec_t gtab[GTAB];
+static int g_used[GTAB / 2];  // slots in use, in creation order (iteration never walks the whole table)
 static int g_nrec;
 static grec_t* g_by_idx[MAX_FIBERS];
 static int g_done_flag[MAX_FIBERS];
@@ -81,9 +88,10 @@ static grec_t* g_find(fiber_t* f, int create) {
     if (r->f == f) return r;
     if (!r->f) {
       if (!create) return 0;
+      if (g_nrec >= GTAB / 2) break;
       r->f = f;
       r->idx = -1;
-      g_nrec++;
+      g_used[g_nrec++] = (int)(r - gtab);
       return r;
     }
   }
@@ -107,18 +115,20 @@ long g_early_wakes(void) { return g_early_count; }
 void rt_nontrivial(const char* name) {
   if (!strcmp(g_case.harness, name)) vs_label_add("nontrivial", 1);
 }
-static int g_next_spawn = -1;
-void g_expect_spawn(int idx) { g_next_spawn = idx; }
+// the program index the next fiber created *by this vthread* gets (0 = none, else idx + 1): other vthreads may create
+// anonymous fibers in between
+static int g_next_spawn_t[VS_MAX_THREADS];
+void g_expect_spawn(int idx) { g_next_spawn_t[vs_self()] = idx + 1; }
 
 void verif_fiber_created(struct fiber* f) {
   if (!vs_active()) return;
   vs_rt_enter();
   grec_t* r = g_find(f, 1);
   if (r->state != GS_NONE) vs_violation("engine_limit", "fiber address reused %p", (void*)f);
-  if (g_next_spawn >= 0 && !f->context.is_thread) {
-    r->idx = g_next_spawn;
+  if (g_next_spawn_t[vs_self()] > 0 && !f->context.is_thread) {
+    r->idx = g_next_spawn_t[vs_self()] - 1;
     g_by_idx[r->idx] = r;
-    g_next_spawn = -1;
+    g_next_spawn_t[vs_self()] = 0;
   }
   if (f->context.is_thread) {
     r->state = GS_RUNNING;
@@ -152,9 +162,14 @@ void verif_fiber_destroy(struct fiber* f) {
 }
 
 void verif_scheduled(void* scheduler, struct fiber* f) {
-  (void)scheduler;
   if (!vs_active()) return;
   vs_rt_enter();
+  // the run queues are owner-only at the pushing end: a fiber may only be made runnable on the scheduler of the kernel
+  // thread the caller is running on (a manager pointer kept across a suspension goes stale when the fiber is stolen)
+  fiber_manager_t* mine = fiber_manager_get();
+  if (mine && mine->scheduler && (void*)mine->scheduler != scheduler)
+    vs_violation("foreign_queue_push", "vthread %d pushed fiber %p onto the run queue of another kernel thread's scheduler (%p, its own is %p): the owner end of a "
+                 "work-stealing deque was used by a thread that does not own it", vs_self(), (void*)f, scheduler, (void*)mine->scheduler);
   grec_t* r = g_find(f, 0);
   if (!r) vs_violation("pending_wake_range", "schedule of unknown fiber %p", (void*)f);
   if (r->state == GS_DESTROYED) vs_violation("destroyed_in_use", "fiber %d (%p) scheduled after it was reclaimed", r->idx, (void*)f);
@@ -284,8 +299,8 @@ int g_all_done(void) { return g_n_done() == g_case.n_fibers; }
 const swlog_t* g_swlog(int vthread) { return &g_sw[vthread]; }
 int g_ready_count(void) {
   int n = 0;
-  for (int i = 0; i < GTAB; i++)
-    if (gtab[i].f && gtab[i].pending) n++;
+  for (int u = 0; u < g_nrec; u++)
+    if (gtab[g_used[u]].pending) n++;
   return n;
 }
 void g_note_main_parked(void) {}
@@ -309,9 +324,10 @@ static void on_quiescence(void) {
   g_quiescences++;
   vs_label_add("quiescences", 1);
   // C02: when every kernel thread has gone idle no runnable fiber remains queued
-  for (int i = 0; i < GTAB; i++)
-    if (gtab[i].f && gtab[i].pending && gtab[i].state != GS_DESTROYED)
+  for (int u = 0; u < g_nrec; u++)
+    if (gtab[g_used[u]].pending && gtab[g_used[u]].state != GS_DESTROYED)
     {
+      const int i = g_used[u];
       char buf[300];
       size_t o = 0;
       typedef struct { wsd_work_stealing_deque_t* q1; wsd_work_stealing_deque_t* q2; wsd_work_stealing_deque_t* from; wsd_work_stealing_deque_t* to; } dbg_sched_t;
@@ -603,6 +619,8 @@ typedef struct agg {
   uint64_t sum;
   uint64_t runs_with;
 } agg_t;
+static uint64_t tol_count, tol_pc[16];
+static int n_tol_pc;
 static agg_t labels[128];
 static int n_labels;
 static void agg_add(const char* name, uint64_t v) {
@@ -739,6 +757,7 @@ int main(int argc, char** argv) {
     else if (!strcmp(argv[i], "--soft") && i + 1 < argc) g_soft = strtoull(argv[++i], 0, 10);
     else if (!strcmp(argv[i], "--hard") && i + 1 < argc) g_hard = strtoull(argv[++i], 0, 10);
     else if (!strcmp(argv[i], "--wall") && i + 1 < argc) g_wall_limit = atof(argv[++i]);
+    else if (!strcmp(argv[i], "--no-tolerate")) rt_tolerate_known_reads = 0;
   }
   g_base_seed = base_seed;
   parse_case(argv[1]);
@@ -825,6 +844,17 @@ int main(int argc, char** argv) {
       strat[n_strat++].sum = 1;
     }
     for (int k = 0; k < shres->n_labels; k++) agg_add(shres->label_name[k], shres->label_val[k]);
+    tol_count += shres->tolerated_count;
+    if (shres->n_tolerated_pc && getenv("RT_TOL_DEBUG")) {
+      fprintf(stderr, "sched %d:", i);
+      for (int k = 0; k < shres->n_tolerated_pc; k++) fprintf(stderr, " 0x%llx", (unsigned long long)shres->tolerated_pc[k]);
+      fprintf(stderr, "\n");
+    }
+    for (int k = 0; k < shres->n_tolerated_pc; k++) {
+      int q = 0;
+      while (q < n_tol_pc && tol_pc[q] != shres->tolerated_pc[k]) q++;
+      if (q == n_tol_pc && q < 16) tol_pc[n_tol_pc++] = shres->tolerated_pc[k];
+    }
     if (shres->tso_buffered) agg_add("tso_buffered", shres->tso_buffered);
     if (shres->tso_hidden_reads) agg_add("tso_hidden_reads", shres->tso_hidden_reads);
     if (st == 3) inconclusive++;
@@ -882,7 +912,9 @@ int main(int argc, char** argv) {
   for (int i = 0; i < n_labels; i++) printf("%s\"%s\":[%llu,%llu]", i ? "," : "", labels[i].name, (unsigned long long)labels[i].sum, (unsigned long long)labels[i].runs_with);
   printf("},\"strategies\":{");
   for (int i = 0; i < n_strat; i++) printf("%s\"%s\":%llu", i ? "," : "", strat[i].name, (unsigned long long)strat[i].sum);
-  printf("},\"replay_mismatch\":%d,\"violation\":", replay_mismatch);
+  printf("},\"tolerated_freed_reads\":{\"count\":%llu,\"pcs\":[", (unsigned long long)tol_count);
+  for (int i = 0; i < n_tol_pc; i++) printf("%s\"0x%llx\"", i ? "," : "", (unsigned long long)tol_pc[i]);
+  printf("]},\"replay_mismatch\":%d,\"violation\":", replay_mismatch);
   if (have_violation)
     print_violation(stdout, vres, &vcfg, vidx, vsname);
   else
